@@ -1375,7 +1375,7 @@ def register_all(M):
         o = a[0]
         if isinstance(o, SymOpt):
             o = some(o.fields[0]) if c.decide(o.present.v if o.present.concrete else o.present.z()) else none()
-        if o.variant == "Some":
+        if o.variant in ("Some", "Ok"):
             return o.fields[0]
         t = m.group("t")
         if t.endswith("Duration"):
@@ -1395,6 +1395,7 @@ def register_all(M):
             return c.call(impl, [])
         raise Unsupported("unwrap_or_default for %s" % t)
     M.add(r"Option::<(?P<t>.*)>::unwrap_or_default", opt_unwrap_or_default)
+    M.add(r"Result::<(?P<t>.*), [^<>]*(?:<[^<>]*>)?>::unwrap_or_default", opt_unwrap_or_default)
     M.add(r"Option::<.*>::or", opt_or)
     M.add(r"Option::<.*>::or_else::<.*>", opt_or_else)
     M.add(r"Option::<.*>::ok_or::<.*>", lambda c, m, a: ok(a[0].fields[0]) if a[0].variant == "Some" else err(a[1]))
